@@ -45,6 +45,8 @@ func (c cfg) String() string {
 	return fmt.Sprintf("%s/chained=%v/h0=%d/appends=%d/starts=%v/same=%v", c.Backend, c.Chained, c.H0, c.Appends, c.Starts, c.SameAddr)
 }
 
+const ringCapacity = 10 // fix.NewBackend's in-memory store
+
 type vstream struct {
 	ctx  context.Context
 	got  []*proto.BeaconPacket
@@ -71,7 +73,7 @@ func runOne(c cfg, devs []vrt.Dev, labels bool) *explore.Exec {
 	var streams []*vstream
 	var final []*common.Beacon
 	var setupErr error
-	s := vrt.Run(vrt.Options{Devs: devs, MaxSteps: 20000, Labels: labels, Watchdog: 10 * time.Second}, func() {
+	s := vrt.Run(vrt.Options{Devs: devs, MaxSteps: 20000, Labels: labels, Watchdog: 60 * time.Second}, func() {
 		ctx := context.Background()
 		base, cleanup, err := fix.NewBackend(ctx, c.Backend, c.Chained)
 		if err != nil {
@@ -185,7 +187,10 @@ func runOne(c cfg, devs []vrt.Dev, labels bool) *explore.Exec {
 			continue
 		}
 		if refused {
-			if from <= c.H0 {
+			// the in-memory ring forgets its oldest rounds: a round below (final head - capacity + 1) may already have been
+			// evicted when the request was served (bolt keeps everything)
+			evictable := c.Backend == "memdb" && H >= ringCapacity && from < H-ringCapacity+1
+			if from <= c.H0 && !evictable {
 				add("refused-stored-round", "request for a stored round was refused")
 			}
 			continue
@@ -197,6 +202,13 @@ func runOne(c cfg, devs []vrt.Dev, labels bool) *explore.Exec {
 		expect := from
 		for j, p := range st.got {
 			sb := stored[p.Round]
+			if sb == nil && c.Backend == "memdb" {
+				// delivered, then evicted from the ring: compare with what the appender stored for that round
+				sb = fix.FakeBeacon(p.Round, true)
+				if !c.Chained {
+					sb.PreviousSig = nil
+				}
+			}
 			if sb == nil || string(sb.Signature) != string(p.Signature) || string(sb.PreviousSig) != string(p.PreviousSignature) {
 				add("mismatch", fmt.Sprintf("delivered packet for round %d differs from the stored beacon", p.Round))
 				break
@@ -270,6 +282,8 @@ func main() {
 		}
 		cfgs = append(cfgs, cfg{Backend: "memdb", Chained: false, H0: 3, Appends: 2, Starts: []uint64{2, 2}, SameAddr: true, Bound: 3})
 		cfgs = append(cfgs, cfg{Backend: "memdb", Chained: true, H0: 3, Appends: 2, Starts: []uint64{1, 3}, Bound: 3})
+		// the in-memory ring exactly full: every append during the scan drops the oldest beacon and shifts the others
+		cfgs = append(cfgs, cfg{Backend: "memdb", Chained: false, H0: 9, Appends: 2, Starts: []uint64{2}, Bound: 3})
 	} else {
 		for _, be := range backends {
 			for _, ch := range []bool{true, false} {
